@@ -294,6 +294,23 @@ void Ruleset__markDropInUntargeted(Ruleset *self)
   __CPROVER_requires(__CPROVER_is_fresh(self, sizeof(*self)) && INV13(self) && self->numTargeted_ >= 1)
   __CPROVER_assigns(self->numTargeted_, self->enabled_)
   __CPROVER_ensures(self->numTargeted_ == __CPROVER_old(self->numTargeted_) - 1 && INV13(self)); /*@C13*/
+/* ---- mergeWithDropIn (C13): a drop-in replaces exactly the parts it supplies, and only parts the base opened up ---- */
+Ruleset g_dropin_rs;
+Ruleset *uptr_Ruleset__resolve(uptr_Ruleset p) { return &g_dropin_rs; }
+#define VEQ(a, b) ((a).vid == (b).vid && (a).n == (b).n)
+_Bool Ruleset__mergeWithDropIn(Ruleset *self, uptr_Ruleset ruleset)
+  __CPROVER_requires(__CPROVER_is_fresh(self, sizeof(*self)) && ghost_exc == 0)
+  __CPROVER_assigns(self->detector_groups_, self->action_group_)
+  __CPROVER_ensures(__CPROVER_return_value == 0 || __CPROVER_return_value == 1)
+  /* refused: no drop-in, or it overrides a part the base did not open up */
+  __CPROVER_ensures((__CPROVER_return_value != 0) == (ruleset != 0 && (g_dropin_rs.detector_groups_.n == 0 || self->detectorgroups_dropin_enabled_ != 0) &&
+                                                     (g_dropin_rs.action_group_.n == 0 || self->actiongroup_dropin_enabled_ != 0))) /*@C13*/
+  /* accepted: supplied parts replaced, the others untouched */
+  __CPROVER_ensures(!__CPROVER_return_value || (
+      (g_dropin_rs.detector_groups_.n != 0 ? VEQ(self->detector_groups_, g_dropin_rs.detector_groups_) : VEQ(self->detector_groups_, __CPROVER_old(self->detector_groups_))) &&
+      (g_dropin_rs.action_group_.n != 0 ? VEQ(self->action_group_, g_dropin_rs.action_group_) : VEQ(self->action_group_, __CPROVER_old(self->action_group_))))) /*@C13*/
+  __CPROVER_ensures(ghost_exc == 0);
+void h_Ruleset__mergeWithDropIn(void) { Ruleset *self; uptr_Ruleset d; HAVOC(g_dropin_rs); HAVOC(ghost_exc); Ruleset__mergeWithDropIn(self, d); __CPROVER_assert(0, "canary: contract precondition satisfiable and function exit reachable"); }
 void h_Ruleset__markDropInTargeted(void) { Ruleset *self; Ruleset__markDropInTargeted(self); __CPROVER_assert(0, "canary: contract precondition satisfiable and function exit reachable"); }
 void h_Ruleset__markDropInUntargeted(void) { Ruleset *self; Ruleset__markDropInUntargeted(self); __CPROVER_assert(0, "canary: contract precondition satisfiable and function exit reachable"); }
 
